@@ -209,6 +209,9 @@ func (e *Enc) lemmaFormula2(lm *Lemma) (string, string, error) {
 			walk(cl.Expr, map[string]bool{})
 		}
 	}
+	if len(bs) == 0 {
+		return body, body, nil // a ground lemma
+	}
 	plain := fmt.Sprintf("(forall (%s) %s)", strings.Join(bs, " "), body)
 	if len(pats) > 0 && len(covered) == len(lm.Params) {
 		return plain, fmt.Sprintf("(forall (%s) (! %s :pattern (%s)))", strings.Join(bs, " "), body, strings.Join(pats, " ")), nil
